@@ -2,11 +2,15 @@
    Property theorems only; each is closed by [exact] of a lemma of theories/Bgzf/*Proofs.v.
    Models: NV.Bgzf.Writer (io/writer.rs, deflate.rs::encode), NV.Bgzf.Frame (io/writer/frame.rs,
    io/reader/frame.rs), NV.Bgzf.Reader (io/reader.rs read_to_end), NV.Bgzf.Crc32.
-   DEFLATE is external: [deflate] / [inflate] are universally quantified functions constrained by
-   the three hypotheses below (validated on every block of every case by the harness). *)
+   DEFLATE: the general theorems quantify over functions [deflate] / [inflate] constrained by the
+   three hypotheses below.  NV.Bgzf.Inflate gives an executable RFC 1951 inflater [inflate] (stored,
+   fixed and dynamic blocks; compared with zlib-rs through the real reader on every frame of every
+   case) and a concrete level-0 compressor [deflate_stored]; for that codec the three hypotheses
+   are THEOREMS (c01_codec_premises) and the *_level0_unconditional theorems have no premise. *)
 From Coq Require Import List NArith.
 From NV Require Import Base.LE Bgzf.Crc32 Bgzf.Crc32Proofs Bgzf.Frame Bgzf.FrameProofs
-  Bgzf.Writer Bgzf.Reader Bgzf.ReaderProofs Bgzf.WriterProofs.
+  Bgzf.Writer Bgzf.Reader Bgzf.ReaderProofs Bgzf.WriterProofs
+  Bgzf.Inflate Bgzf.InflateProofs Bgzf.Level0Proofs.
 Import ListNotations.
 Open Scope N_scope.
 
@@ -160,6 +164,176 @@ Theorem c01_crc32_bound : forall l, crc32 l < 4294967296.
 Proof. exact crc32_bound. Qed.
 Print Assumptions c01_crc32_bound.
 
+(* ==== DEFLATE made concrete ==================================================================== *)
+
+(* the executable inflater inverts the stored-block compressor, for EVERY byte string (any length:
+   one stored block per 65535 bytes, BFINAL on the last) *)
+Theorem c01_inflate_stored_correct : forall x, inflate (deflate_stored x) (lenN x) = Some x.
+Proof. exact inflate_stored_correct. Qed.
+Print Assumptions c01_inflate_stored_correct.
+
+(* size of the level-0 stream: 5 bytes per stored block, max 1 (ceil (|x| / 65535)) blocks;
+   the empty input gives the 5 bytes 01 00 00 ff ff; a staging buffer gives exactly |x| + 5 *)
+Theorem c01_deflate_stored_size :
+  (forall x, lenN (deflate_stored x) = lenN x + 5 * N.max 1 ((lenN x + 65534) / 65535)) /\
+  deflate_stored [] = [1; 0; 0; 255; 255] /\
+  (forall x, lenN x <= 65535 ->
+     deflate_stored x = 1 :: le16 (lenN x) ++ le16 (65535 - lenN x) ++ x /\
+     lenN (deflate_stored x) = lenN x + 5).
+Proof.
+  split; [exact deflate_stored_length|]. split; [exact deflate_stored_empty|].
+  exact deflate_stored_single.
+Qed.
+Print Assumptions c01_deflate_stored_size.
+
+(* the three DEFLATE premises hold for (deflate_l0 = deflate_stored at every level, inflate) *)
+Theorem c01_codec_premises : H_l0 deflate_l0 /\ H_rt deflate_l0 inflate /\ H_eof inflate.
+Proof.
+  split; [exact l0_bound|]. split; [exact l0_roundtrip|exact inflate_eof_cdata].
+Qed.
+Print Assumptions c01_codec_premises.
+
+(* ROUND TRIP, no premise: writer with the stored-block codec, reader with the executable inflater *)
+Theorem c01_roundtrip_level0_unconditional :
+  forall lvl ops e,
+    let o := run_script deflate_l0 lvl ops e in
+    reader_read_to_end inflate (o_sink o) = (accepted ops (o_results o), Ok tt).
+Proof. exact roundtrip_level0. Qed.
+Print Assumptions c01_roundtrip_level0_unconditional.
+
+Theorem c01_wellformed_level0_unconditional :
+  forall lvl ops e, no_try_finish ops ->
+    let o := run_script deflate_l0 lvl ops e in
+    exists blocks,
+      o_sink o = frames_bytes (map (wframe deflate_l0 lvl) blocks) ++ eof_block /\
+      Forall (frame_wf deflate_l0 lvl inflate) blocks /\
+      concat blocks = accepted ops (o_results o) /\
+      o_end o = Ok tt /\
+      Forall (fun r => is_ok (fst r)) (o_results o) /\ length (o_results o) = length ops.
+Proof. exact wellformed_level0. Qed.
+Print Assumptions c01_wellformed_level0_unconditional.
+
+Theorem c01_wellformed_segments_level0_unconditional :
+  forall lvl ops e,
+    let o := run_script deflate_l0 lvl ops e in
+    exists segs,
+      o_sink o = segs_bytes deflate_l0 lvl segs /\ segs <> [] /\ tail_nonempty segs /\
+      Forall (Forall (frame_wf deflate_l0 lvl inflate)) segs /\
+      concat (concat segs) = accepted ops (o_results o) /\
+      o_end o = Ok tt /\
+      Forall (fun r => is_ok (fst r)) (o_results o) /\ length (o_results o) = length ops /\
+      (no_try_finish ops -> exists blocks, segs = [blocks]).
+Proof. exact wellformed_segments_level0. Qed.
+Print Assumptions c01_wellformed_segments_level0_unconditional.
+
+Theorem c01_no_unreachable_level0_unconditional :
+  forall lvl x, lenN x <= 65495 -> encode deflate_l0 lvl x = Ok (enc deflate_l0 lvl x, crc32 x).
+Proof. exact no_unreachable_level0. Qed.
+Print Assumptions c01_no_unreachable_level0_unconditional.
+
+(* deflate.rs::encode never reaches unreachable!() for ANY first attempt at the requested level,
+   as soon as level 0 of the codec is the stored-block compressor (zlib-rs: compared byte for byte
+   on every level-0 block of every run) *)
+Theorem c01_no_unreachable_stored_fallback :
+  forall (deflate : N -> list N -> list N) lvl,
+    (forall x, lenN x <= 65495 -> deflate 0 x = deflate_stored x) ->
+    forall x, lenN x <= 65495 -> encode deflate lvl x = Ok (enc deflate lvl x, crc32 x).
+Proof. exact no_unreachable_stored_fallback. Qed.
+Print Assumptions c01_no_unreachable_stored_fallback.
+
+(* every frame of the level-0 writer carries one final stored block: |cdata| = |block| + 5 *)
+Theorem c01_level0_cdata :
+  forall lvl b, lenN b <= 65495 ->
+    enc deflate_l0 lvl b = stored_block true b /\ lenN (enc deflate_l0 lvl b) = lenN b + 5.
+Proof. exact enc_level0. Qed.
+Print Assumptions c01_level0_cdata.
+
+(* the general round trip with the executable inflater: H_eof is no longer a premise *)
+Theorem c01_roundtrip_concrete_inflate :
+  forall deflate lvl, H_l0 deflate -> H_rt deflate inflate ->
+  forall ops e,
+    let o := run_script deflate lvl ops e in
+    reader_read_to_end inflate (o_sink o) = (accepted ops (o_results o), Ok tt).
+Proof.
+  intros deflate lvl Hl0 Hrt.
+  exact (writer_reader_roundtrip deflate lvl Hl0 inflate Hrt inflate_eof_cdata).
+Qed.
+Print Assumptions c01_roundtrip_concrete_inflate.
+
+(* the same for any compressor whose level 0 is the stored-block compressor (what zlib-rs does,
+   compared byte for byte on every run): the only premise left is that the executable inflater
+   inverts the compressor (H_rt; for levels 1..9 of zlib-rs this is tested, not proved) *)
+Theorem c01_roundtrip_stored_level0 :
+  forall deflate lvl,
+    (forall x, lenN x <= 65495 -> deflate 0 x = deflate_stored x) -> H_rt deflate inflate ->
+  forall ops e,
+    let o := run_script deflate lvl ops e in
+    reader_read_to_end inflate (o_sink o) = (accepted ops (o_results o), Ok tt).
+Proof.
+  intros deflate lvl H0 Hrt.
+  exact (writer_reader_roundtrip deflate lvl (l0_bound_of_stored deflate H0) inflate Hrt inflate_eof_cdata).
+Qed.
+Print Assumptions c01_roundtrip_stored_level0.
+
+(* SAFETY of the inflater on arbitrary (hostile) CDATA: it is a total function, never produces
+   more than the limit (the reader passes ISIZE <= 65536), and [inflate c n] -- decode into a
+   buffer of n bytes -- returns exactly n bytes or fails *)
+Theorem c01_inflate_bounded :
+  (forall limit src out rest, inflate_raw limit src = Some (out, rest) -> lenN out <= limit) /\
+  (forall c n d, inflate c n = Some d -> lenN d = n).
+Proof. split; [exact inflate_raw_bounded|exact inflate_exact_length]. Qed.
+Print Assumptions c01_inflate_bounded.
+
+(* the limit only cuts: if the stream inflates to [out] under some limit L then under any limit n
+   the inflater returns the same output when it fits and fails otherwise; hence the reader's
+   decode-into-n-bytes succeeds exactly when the stream inflates to n bytes *)
+Theorem c01_inflate_limit_independent :
+  forall L c out rest, inflate_raw L c = Some (out, rest) ->
+    (forall n, inflate_raw n c = if lenN out <=? n then Some (out, rest) else None) /\
+    (forall n, inflate c n = if lenN out =? n then Some out else None).
+Proof.
+  intros L c out rest H. split; [exact (inflate_raw_relimit L c out rest H)|exact (inflate_spec L c out rest H)].
+Qed.
+Print Assumptions c01_inflate_limit_independent.
+
+(* the window trie of the inflater is an implementation detail: in every state reached from the
+   empty buffer it holds exactly the output list; a literal appends one byte, a stored block its
+   bytes, and a match (length n, distance 1 <= d <= |out|) appends the list-level LZ77 copy
+   lz_copy (byte by byte, overlapping allowed: RFC 1951 3.2.3) *)
+Theorem c01_inflate_window_faithful :
+  win_ok ob_empty /\
+  (forall b o, win_ok o -> win_ok (push b o) /\ ob_list (push b o) = ob_list o ++ [b]) /\
+  (forall l o, win_ok o -> win_ok (push_list l o) /\ ob_list (push_list l o) = ob_list o ++ l) /\
+  (forall n dist o, win_ok o -> 1 <= dist -> dist <= ob_len o ->
+     win_ok (copy_match n (ob_len o - dist) o) /\
+     ob_list (copy_match n (ob_len o - dist) o)
+       = lz_copy n (length (ob_list o) - N.to_nat dist) (ob_list o)) /\
+  (forall fuel cf limit s s' o', blocks fuel cf limit s ob_empty = Some (s', o') -> win_ok o').
+Proof. exact window_faithful. Qed.
+Print Assumptions c01_inflate_window_faithful.
+
+(* a frame the reader model accepts inflates to exactly ISIZE <= 65536 bytes with the CRC of the
+   trailer; a frame whose CDATA inflate (under whatever limit) to a different length than ISIZE
+   is rejected with InvalidData; one whose CDATA inflate to ISIZE bytes is accepted iff the CRC
+   matches *)
+Theorem c01_reader_rejects_isize_mismatch :
+  (forall frame bs cdata crc isize bs' d,
+     parse_frame frame = Ok (bs, cdata, crc, isize) ->
+     parse_block inflate frame = Ok (bs', d) ->
+     lenN d = isize /\ lenN d <= 65536 /\ crc32 d = crc) /\
+  (forall frame bs cdata crc isize L out rest,
+     parse_frame frame = Ok (bs, cdata, crc, isize) ->
+     inflate_raw L cdata = Some (out, rest) -> lenN out <> isize ->
+     parse_block inflate frame = Err InvalidData) /\
+  (forall frame bs cdata crc isize L out rest,
+     parse_frame frame = Ok (bs, cdata, crc, isize) ->
+     inflate_raw L cdata = Some (out, rest) -> lenN out = isize ->
+     parse_block inflate frame = if crc32 out =? crc then Ok (bs, out) else Err InvalidData).
+Proof.
+  split; [exact parse_block_isize|]. split; [exact parse_block_rejects_length_mismatch|exact parse_block_accepts].
+Qed.
+Print Assumptions c01_reader_rejects_isize_mismatch.
+
 (* ---- non-vacuity: the three hypotheses are jointly satisfiable, and a concrete script ---- *)
 Definition toy_deflate (_ : N) (x : list N) : list N := 1 :: x.
 Definition toy_inflate (c : list N) (n : N) : option (list N) :=
@@ -196,3 +370,22 @@ Example c01_example_reopened :
   lenN (o_sink o) = 114 /\
   reader_read_to_end toy_inflate (o_sink o) = ([1; 2; 3; 4], Ok tt).
 Proof. vm_compute. repeat split; reflexivity. Qed.
+
+(* the unconditional round trip on a concrete script, computed: a stored block per frame *)
+Example c01_example_level0 :
+  let o := run_script deflate_l0 0 [OWriteAll [110; 111]; OFlush; OWrite [111; 100]] EDrop in
+  o_sink o = frame_bytes [1; 2; 0; 253; 255; 110; 111] (crc32 [110; 111]) 2
+             ++ frame_bytes [1; 2; 0; 253; 255; 111; 100] (crc32 [111; 100]) 2 ++ eof_block /\
+  reader_read_to_end inflate (o_sink o) = ([110; 111; 111; 100], Ok tt).
+Proof. vm_compute. split; reflexivity. Qed.
+
+(* the inflater on fixed-Huffman and dynamic-Huffman streams produced by zlib (raw deflate of
+   "noodles" at level 6; of 40 x 'a' ++ 40 x 'b' ++ "noodles" with Z_FILTERED... ) *)
+Example c01_inflate_fixed :
+  inflate [203; 203; 207; 79; 201; 73; 45; 6; 0] 7 = Some [110; 111; 111; 100; 108; 101; 115].
+Proof. vm_compute. reflexivity. Qed.
+
+Example c01_inflate_dynamic :
+  inflate [85; 142; 187; 10; 128; 48; 12; 69; 231; 155; 79; 233; 20; 133; 142; 25; 130; 160; 184; 247; 15; 84; 112; 16; 5; 253; 127; 208; 150; 244; 97; 58; 244; 114; 233; 57; 13; 205; 223; 140; 223; 200; 164; 33; 232; 160; 189; 247; 200; 29; 151; 164; 195; 20; 114; 94; 246; 187; 3; 227; 188; 174; 245; 216; 30; 33; 98; 136; 48; 28; 204; 64; 118; 139; 67; 122; 26; 89; 171; 126; 10; 19; 180; 185; 126; 232; 16; 79; 93; 164; 217; 46; 250; 18; 100; 29; 131; 12; 119; 40; 65; 42; 28; 25; 169; 222; 156; 94] 250
+  = Some [10; 73; 73; 73; 73; 70; 70; 70; 70; 61; 71; 65; 84; 84; 65; 67; 65; 50; 53; 53; 9; 73; 73; 73; 73; 70; 70; 70; 70; 48; 9; 73; 73; 73; 73; 70; 70; 70; 70; 65; 67; 71; 84; 73; 73; 73; 73; 70; 70; 70; 70; 99; 104; 114; 49; 9; 48; 9; 110; 111; 111; 100; 108; 101; 115; 61; 10; 10; 48; 9; 61; 61; 48; 9; 42; 9; 71; 65; 84; 84; 65; 67; 65; 10; 71; 65; 84; 84; 65; 67; 65; 61; 42; 9; 99; 104; 114; 49; 9; 65; 67; 71; 84; 71; 65; 84; 84; 65; 67; 65; 73; 73; 73; 73; 70; 70; 70; 70; 99; 104; 114; 49; 9; 110; 111; 111; 100; 108; 101; 115; 99; 104; 114; 49; 9; 110; 111; 111; 100; 108; 101; 115; 48; 9; 73; 73; 73; 73; 70; 70; 70; 70; 42; 9; 42; 9; 42; 9; 73; 73; 73; 73; 70; 70; 70; 70; 48; 9; 71; 65; 84; 84; 65; 67; 65; 50; 53; 53; 9; 65; 67; 71; 84; 99; 104; 114; 49; 9; 71; 65; 84; 84; 65; 67; 65; 48; 9; 10; 110; 111; 111; 100; 108; 101; 115; 42; 9; 110; 111; 111; 100; 108; 101; 115; 42; 9; 61; 42; 9; 73; 73; 73; 73; 70; 70; 70; 70; 50; 53; 53; 9; 61; 73; 73; 73; 73; 70; 70; 70; 70; 42; 9; 73; 73; 73; 73; 70; 70; 70; 70].
+Proof. vm_compute. reflexivity. Qed.
